@@ -322,6 +322,9 @@ func (p *parser) parseTypeAssertion(left Node) Node {
 	if left.Type() != ANY_TYPE {
 		p.appendErrorForToken("value of type assertion must be of type any, not "+left.Type().String(), tok)
 	}
+	if t == nil {
+		return nil // previous error: a node without a type must not be used further
+	}
 	return &TypeAssertion{T: t, token: tok, Left: left}
 }
 
